@@ -327,6 +327,7 @@ func c14RunE2E(t *testing.T, run *Run, sc c14E2E) {
 	defer os.Setenv("TMPDIR", old)
 	w := NewWorld(t, WorldOpt{})
 	defer w.Close()
+	w.MaxClientLife = 30 * time.Second
 	run.Eval()
 	fail := func(sig, format string, a ...any) {
 		run.Violate("e2e:"+sig, fmt.Sprintf(format, a...), sc, func() []string { return w.Trace(60) })
